@@ -104,6 +104,48 @@ def judge_case(col: common.Collector, ll: codecrun.LoadedLayer, msg: Dict[str, A
         bad("pdu-length-differs", (cell,), f"PDU {o.value.hex()} vs reference {enc.pdu.hex()}")
 
 
+def judge_service_entry(col: common.Collector, ll: codecrun.LoadedLayer, msg: Dict[str, Any],
+                        obj: Any, values: Dict[str, Any], request: Optional[bytes], cell: str) -> None:
+    """The service-level entry points (DiagService.__call__ / encode_request /
+    encode_positive_response / encode_negative_response) against the coding object's own
+    encode(): same PDU, or both reject with the library's error; never a foreign exception."""
+    svc = None
+    for s in ll.layer.services:
+        if request is None and s.request is obj:
+            svc, how = s, "call"
+            break
+        if request is not None and any(r is obj for r in s.positive_responses):
+            svc, how, idx = s, "pos", [r is obj for r in s.positive_responses].index(True)
+            break
+        if request is not None and any(r is obj for r in s.negative_responses):
+            svc, how, idx = s, "neg", [r is obj for r in s.negative_responses].index(True)
+            break
+    if svc is None:
+        return
+    direct = codecrun.encode(obj, values, request)
+    if how == "call":
+        via = codecrun.call(svc, **values)
+        via2 = codecrun.call(svc.encode_request, **values)
+        if via.ok != via2.ok or (via.ok and bytes(via.value) != bytes(via2.value)):
+            col.violation(("service-entry-differs", "__call__-vs-encode_request", cell),
+                          {"message": msg, "values": values, "call": via.brief(), "encode_request": via2.brief()})
+    elif how == "pos":
+        via = codecrun.call(svc.encode_positive_response, request, idx, **values)
+    else:
+        via = codecrun.call(svc.encode_negative_response, request, idx, **values)
+    col.ev()
+    col.count("service-entry:" + how)
+    det = {"layer": ll.model["name"], "message": msg, "dobjs": used_dobjs(ll.model, msg),
+           "values": values, "request": request, "entry": how, "direct": direct.brief(),
+           "via_service": via.brief()}
+    if not via.ok and via.exc_family == "foreign":
+        col.violation(("foreign-exception", via.exc_type, "service-entry/" + how, cell), det)
+    elif via.ok != direct.ok:
+        col.violation(("service-entry-differs", how, "accepts" if via.ok else "rejects", cell), det)
+    elif via.ok and bytes(via.value) != bytes(direct.value):
+        col.violation(("service-entry-differs", how, "pdu", cell), det)
+
+
 def _restrict(decoded: Any, requested: Any) -> Any:
     """The part of `decoded` that corresponds to keys the caller supplied."""
     if isinstance(requested, dict) and isinstance(decoded, dict):
@@ -224,6 +266,7 @@ def run_layer(task: Tuple, col: common.Collector) -> None:
             base = codeccompose.assignments(rq, model, r, n=2 if tier == "quick" else 5)
             for bi, vals in enumerate(base):
                 judge_case(col, ll, rq, obj, vals, None, cell, (rq["name"], "valid", bi))
+                judge_service_entry(col, ll, rq, obj, vals, None, cell)
                 muts = mutate_assignment(vals, r)
                 if tier == "quick" and len(muts) > 40:
                     muts = r.sample(muts, 40)
@@ -231,6 +274,8 @@ def run_layer(task: Tuple, col: common.Collector) -> None:
                     if not isinstance(mv, dict):
                         continue
                     judge_case(col, ll, rq, obj, mv, None, cell, (rq["name"], mk, mi % 7))
+                    if mi % 3 == 0 or mk in ("missing", "unknown-param"):
+                        judge_service_entry(col, ll, rq, obj, mv, None, cell)
                     col.count("mutation:" + mk)
             col.count("cell:compose")
         for pr in model["pos"] + model["neg"]:
@@ -254,6 +299,7 @@ def run_layer(task: Tuple, col: common.Collector) -> None:
                         continue
                     judge_case(col, ll, pr, pobj, vals, req_pdu, "response/" + str(len(req_pdu)),
                                (pr["name"], len(req_pdu)))
+                    judge_service_entry(col, ll, pr, pobj, vals, req_pdu, "response/" + str(len(req_pdu)))
     if model["requests"]:
         rq = model["requests"][len(model["requests"]) // 2]
         col.sample({"mode": mode, "layer": model["name"], "message": rq["name"],
@@ -270,6 +316,7 @@ def run(tier: str, col: common.Collector) -> None:
     common.pmap(run_layer, tasks, col)
     for need in ("cell:STD", "cell:MINMAX", "cell:LEAD", "cell:compose", "mutation:missing",
                  "mutation:wrong-type", "mutation:unknown-param", "ref-verdict:out-of-range",
+                 "service-entry:call", "service-entry:pos", "service-entry:neg",
                  "ref-verdict:wrong-type"):
         if not col.counters.get(need):
             col.fail_inconclusive(f"feature cell {need} never evaluated")
